@@ -6,6 +6,7 @@
 #include "venv.h"
 #include "der.h"
 #include "sm2_ref.h"
+#include "smally.h"
 #include "ossl_ref.h"
 
 #define ND 5
@@ -121,6 +122,9 @@ static void blk_malformed(void) {
 						uint8_t w[64]; memcpy(w, s1, 64); BN_add(xb, xb, p); bn_to_be(w, xb); cl = enc_ct(m, w, s3, s2, n); offer(xs ? "malformed:c1-small-x+p" : "malformed:c1-x=p-with-y-of-x=0", d, m, cl);
 						memcpy(w, s1, 64); BN_bin2bn(s1 + 32, 32, y); BN_add(y, y, p); if (BN_num_bits(y) <= 256) { bn_to_be(w + 32, y); cl = enc_ct(m, w, s3, s2, n); offer("malformed:c1-small-x,y+p", d, m, cl); } } }
 				EC_POINT_free(P0); BN_free(xb); ERR_clear_error(); }
+			/* special ordinates: C1 = (x0, ys) with a SMALL ys (the cubic in x solved for it) is a legitimate point; the same ciphertext with ys + p (which fits in 256 bits only for such points) names none */
+			for (unsigned ys = 1, found = 0; ys < 40 && !found; ys++) { uint8_t s1[64], s3[32], s2[256]; if (!small_y_point(ys, s1)) continue; found = 1; if (!sr_xy_on_curve(s1)) vh_harness_error("small-y point off curve");
+				if (sr_seal_with_c1(DKEY[d], s1, PT[2], n, s3, s2)) { cl = enc_ct(m, s1, s3, s2, n); offer("malformed:c1-small-y(valid)", d, m, cl); uint8_t w[64]; memcpy(w, s1, 64); BN_set_word(y, ys); BN_add(y, y, p); bn_to_be(w + 32, y); cl = enc_ct(m, w, s3, s2, n); offer("malformed:c1-small-y+p", d, m, cl); } }
 			BN_free(y); }
 		/* non-canonical forms of the valid ciphertext */
 		cl = enc_ct(ct, c1, c3, c2, n);
